@@ -27,6 +27,7 @@ import (
 
 	"chainguard.dev/apko/pkg/apk/apk"
 	apkfs "chainguard.dev/apko/pkg/apk/fs"
+	"chainguard.dev/apko/pkg/build/types"
 )
 
 type confinePkgRec struct {
@@ -122,6 +123,40 @@ func confineGenPkgCache(r *Rng) confineCase {
 	}
 	c.SP = &sp
 	return c
+}
+
+// architecture strings: configuration `archs:` / --arch values, known names in both styles, unknown plain names
+var confineArchStrings = []string{"x86_64", "amd64", "aarch64", "arm64", "x86", "386", "armhf", "arm/v6", "armv7", "arm/v7", "loong64", "loongarch64", "riscv64", "ppc64le", "s390x", "mips64", "apples",
+	"", ".", "..", "/", "a/b", "arm/v8", "arm/v6/", "/arm/v6", "arm//v6", "x86_64/", "../x86_64", "x86_64/..", "...", "..x", "a.b", "%2E%2E", "%2F", "a%2Fb", "a\\b", "a b", "all", "host"}
+
+func confineGenArchName(r *Rng) confineCase {
+	c := confineCase{Kind: "archname", Value: Pick(r, confineArchStrings)}
+	if r.Chance(40) {
+		c.Value = Pick(r, confineHostileArchs)
+	}
+	if r.Chance(20) {
+		c.Value = Pick(r, confineHostileFields)
+	}
+	return c
+}
+
+func confineRunArchName(c confineCase) []Step {
+	s := confineModelStr(c.Value)
+	a := types.ParseArchitecture(s)
+	got := a.ToAPK()
+	// what is held may be parsed again at any time (ToAPK, ToOCIPlatform do): the name must not move
+	again := types.ParseArchitecture(a.String()).ToAPK()
+	tags := []string{"archname:known"}
+	if got == s {
+		tags = []string{"archname:unchanged"}
+	} else if strings.Contains(got, "%2") {
+		tags = []string{"archname:escaped"}
+	}
+	steps := []Step{{Line: "cf.archname\t" + hx(s), Go: hx(got), Desc: fmt.Sprintf("ParseArchitecture(%q).ToAPK() = %q", s, got), Tags: tags}}
+	if again != got {
+		steps = append(steps, Step{Line: "cf.effect\tarchname-not-stable\t0\t" + hx(again), Go: "-", Mode: "verdict", NoImpl: true, Desc: fmt.Sprintf("ParseArchitecture(%q).ToAPK() = %q but parsing the held value again gives %q", s, got, again)})
+	}
+	return steps
 }
 
 func confinePkgOf(t *confineTree, p confinePkgRec, validSum string) apk.InstallablePackage {
